@@ -257,6 +257,10 @@ package graphql
 //@   call mapupdate assert fresh(arg0)                       // C18: Parse only writes maps it allocated - never the caller's variables
 //@   call valueToJson assert vars[name] == nil && arg1 == nil   // C18: a variable's default is evaluated only when no non-null value was supplied
 //@   loop 2 invariant (defaultedVars == nil || fresh(defaultedVars)) && (forall k string :: vars[k] == old(vars[k]))
+// ... and is used whenever none was: every nullable variable seen so far that has a default and no non-null value got its default stored
+//@   ghost dflt map[string]bool
+//@   call mapupdate#3 ghost dflt[name] = true
+//@   loop 2 invariant forall k int :: 0 <= k && k <= rangeindex ==> (queryDefinition.VariableDefinitions[k].DefaultValue != nil && !(queryDefinition.VariableDefinitions[k].Type is *ast.NonNull) && vars[queryDefinition.VariableDefinitions[k].Variable.Name.Value] == nil ==> dflt[queryDefinition.VariableDefinitions[k].Variable.Name.Value])
 //@   loop 3 invariant defaultedVars != nil && fresh(defaultedVars) && (forall k string :: vars[k] == old(vars[k]))
 //@   loop 4 invariant forall k string :: visited[k] ==> (k in globalFragments)
 //@   loop 5 invariant forall k string :: (k in fragmentDefinitions) ==> (k in globalFragments)
@@ -312,6 +316,9 @@ package graphql
 //@   ensures value is *ast.ListValue && err == nil ==> result is []interface{} && len(result.([]interface{})) == len(value.(*ast.ListValue).Values) && fresh(result.([]interface{}))
 //@   ensures value is *ast.ObjectValue && err == nil ==> result is map[string]interface{} && fresh(result.(map[string]interface{}))
 //@   ensures !(value is *ast.StringValue || value is *ast.BooleanValue || value is *ast.EnumValue || value is *ast.Variable || value is *ast.IntValue || value is *ast.FloatValue || value is *ast.ListValue || value is *ast.ObjectValue) ==> err != nil
+// numeric literals are read at full width: base-10 64-bit integers, 64-bit floats (what encoding/json yields for a variable)
+//@   call ParseInt assert arg0 == value.Value && arg1 == 10 && arg2 == 64
+//@   call ParseFloat assert arg0 == value.Value && arg1 == 64
 //@   loop 1 invariant fresh(obj)
 //@   loop 2 invariant fresh(list) && len(list) == rangeindex+1 && rangeindex < len(value.Values)      // here `value` is the *ast.ListValue bound by the type switch
 //@ func parseSelectionSet
@@ -428,6 +435,15 @@ package graphql
 //@   call PrepareQuery#4 assert arg1 == typ.Type && arg2 == selectionSet
 //@   call PrepareQuery#5 assert arg1 == typ.Type && arg2 == selectionSet
 //@   call dynamic assert arg0 == selection.UnparsedArgs
+// completeness of the object case: no selection and no fragment is skipped - every selection visited so far was either
+// checked as __typename or validated against its field, every fragment visited so far was validated against the object
+//@   ghost vsel map[int]bool
+//@   ghost vfrag map[int]bool
+//@   call isNilArgs#2 ghost vsel[rangeindex+1] = true
+//@   call PrepareQuery#2 ghost vsel[rangeindex+1] = true
+//@   call PrepareQuery#3 ghost vfrag[rangeindex+1] = true
+//@   loop 5 invariant forall k int :: 0 <= k && k <= rangeindex ==> vsel[k]
+//@   loop 6 invariant forall k int :: 0 <= k && k <= rangeindex ==> vfrag[k]
 // field.ParseArguments (built by schemabuilder from the argument struct) works on the JSON arguments only
 //@   keeps Selection, Object, Field, map[string]*Field
 
@@ -482,3 +498,29 @@ package graphql
 //@   loop 2 invariant -1 <= rangeindex && rangeindex < len(reflectedSources) && len(reflectedSources) == len(sources) && len(flattenedResps) == len(flattenedSources)
 //@   loop 2 invariant forall k int :: 0 <= k && k <= rangeindex ==> filled[k]
 //@   loop 3 invariant len(flattenedResps) == len(flattenedSources) && 0 <= i && -1 <= rangeindex && rangeindex < len(sources) && len(reflectedSources) == len(sources)
+
+// ---- C01 / C14: the reactive cache key of an expensive field identifies the field, the selection (alias,
+// arguments and sub-selection) and the source, so two selections of one field on one source never share a cached
+// subtree; an uncomparable source gets a key of its own.
+//@ func getWorkCacheKey
+//@   assigns nothing
+//@   ensures result.field == field && result.selection == selection
+//@   ensures result.source == src || (result.source is *byte)
+
+//@ func executeNonBatchWorkUnitWithCaching
+//@   requires unit != nil && dest != nil
+//@   call getWorkCacheKey assert arg0 == src && arg1 == unit.field && arg2 == unit.selection
+//@   call Cache assert arg0 == unit.Ctx
+//@   call outputNode.Fail assert arg0 == dest
+//@   call outputNode.Fill assert arg0 == dest
+
+// ---- C02: an unsubscribe is processed before the next message is read - when handle returns, the id is no longer in the
+// subscription table (closeSubscription ran to completion, including Rerunner.Stop, which waits for an in-flight run),
+// so no later update can be produced for it. Other message kinds are dispatched to the handler of that kind.
+//@ func conn.handle
+//@   requires c != nil && e != nil && c.subscriptions != nil
+//@   keeps conn, map[string]*reactive.Rerunner, inEnvelope
+//@   ensures e.Type == "unsubscribe" ==> err == nil && !(e.ID in c.subscriptions)
+//@   call conn.handleSubscribe assert e.Type == "subscribe" && arg1 == e
+//@   call conn.closeSubscription assert e.Type == "unsubscribe" && arg0 == c && arg1 == e.ID
+//@   call conn.handleMutate assert e.Type == "mutate" && arg1 == e
